@@ -73,4 +73,14 @@ def SignType.fromBytes (bs : List UInt8) : Except Panic (Except SignTypeErr Sign
       | none => .ok (.error .unknownConfig)
     | _, _ => .error .index
 
+/-- `SignType::from_bytes` on a string of `n` bytes that starts with `fam, id`, for `n ≠ 16`: the verdict depends on
+    the length alone (what the driver evaluates for strings too long to build as a list). -/
+def SignType.fromBytesLenErr (n : Nat) : Option SignTypeErr :=
+  if n ≠ 16 then some (.wrongLen 16 n) else none
+
+theorem SignType.fromBytes_wrongLen (bs : List UInt8) (h : bs.length ≠ 16) :
+    SignType.fromBytes bs = .ok (.error (.wrongLen 16 bs.length)) ∧
+      SignType.fromBytesLenErr bs.length = some (.wrongLen 16 bs.length) := by
+  simp [SignType.fromBytes, SignType.fromBytesLenErr, h]
+
 end Flipdot
